@@ -1008,12 +1008,93 @@ def rule_empty_files_do_not_overlap(prog, fixture=False):
     return r
 
 
+# ---------------------------------------------------------------- R-C01-11
+def rule_type_length(prog, fixture=False):
+    r = RuleResult("R-C01-11", "`type` writes exactly as many bytes as the piece of the file it was handed: the count "
+                   "given to cout.write is body_end - body_start, or the size of a buffer that holds one byte per "
+                   "input byte (CR is replaced, never dropped or doubled; nothing depends on the previous byte)",
+                   floor=0 if fixture else 2)
+    for fn in prog.functions.values():
+        if not (fn.relfile() == "dfs/cmd_type.cc" or fixture):
+            continue
+        ptrs = [p_ for p_ in fn.params if "*" in (p_.get("t") or "") and "char" in (p_.get("ct") or p_.get("t") or "")]
+        if len(ptrs) < 2:
+            continue
+        b0, b1 = ptrs[0]["d"], ptrs[1]["d"]
+
+        def is_span(e):
+            e = strip_all(e)
+            return e is not None and e.get("k") == "BinaryOperator" and e.get("op") == "-" and \
+                (strip_all(e["c"][0]) or {}).get("d") == b1 and (strip_all(e["c"][1]) or {}).get("d") == b0
+        k = 0
+        for n in fn.walk():
+            if n.get("k") != "CXXMemberCallExpr" or (strip(n["c"][0]) or {}).get("n") != "write" or len(n["c"]) < 3:
+                continue
+            k += 1
+            key = "%s::%s::write#%d" % (fn.relfile(), fn.qn, k)
+            size = strip_all(n["c"][2])
+            if is_span(size):
+                r.add(key, fn.loc(n), True, "count = body_end - body_start")
+                continue
+            vec = None
+            if size is not None and size.get("k") == "CXXMemberCallExpr" and (strip(size["c"][0]) or {}).get("n") == "size":
+                vec = strip_all((strip(size["c"][0]) or {}).get("c", [None])[0])
+            if vec is None or vec.get("k") != "DeclRefExpr":
+                r.undecided.append("%s: cannot relate the count `%s` to the piece handed in" % (fn.loc(n), show(size)[:40]))
+                continue
+            vd = [v for v in fn.walk() if v.get("k") == "VarDecl" and v.get("d") == vec["d"]]
+            init = strip_all(vd[0]["c"][0]) if vd and vd[0].get("c") else None
+            ranged = init is not None and init.get("k") == "CXXConstructExpr" and len(init.get("c", [])) >= 2 and \
+                (strip_all(init["c"][0]) or {}).get("d") == b0 and (strip_all(init["c"][1]) or {}).get("d") == b1
+            muts = [x for x in fn.walk() if x.get("k") == "CXXMemberCallExpr" and (strip(x["c"][0]) or {}).get("n") in flow.MUTATORS
+                    and (strip_all((strip(x["c"][0]) or {}).get("c", [None])[0]) or {}).get("d") == vec["d"]]
+            sizing = [x for x in muts if (strip(x["c"][0]) or {}).get("n") not in ("reserve",)]
+            if ranged and not sizing:
+                r.add(key, fn.loc(n), True, "buffer copied from [body_start, body_end), elements replaced in place")
+                continue
+            pushes = [x for x in sizing if (strip(x["c"][0]) or {}).get("n") in ("push_back", "emplace_back")]
+            problem = None
+            if not ranged and pushes and len(pushes) == len(sizing):
+                for pb in pushes:
+                    loop = None
+                    for a in fn.ancestors(pb):
+                        if a.get("k") in ("ForStmt", "WhileStmt", "CXXForRangeStmt", "DoStmt"):
+                            loop = a
+                            break
+                    if loop is None:
+                        problem = "%s: a byte is appended outside the loop over the piece" % fn.loc(pb)
+                        break
+                    body = loop["c"][loop["parts"]["body"]]
+                    cond_anc = [a for a in fn.ancestors(pb) if any(y is a for y in walk(body)) and
+                                a.get("k") in ("IfStmt", "SwitchStmt", "ConditionalOperator")]
+                    skips = [x for x in walk(body) if x.get("k") in ("ContinueStmt", "BreakStmt", "ReturnStmt")]
+                    if cond_anc or skips or len([q_ for q_ in pushes if any(y is q_ for y in walk(body))]) != 1:
+                        problem = "%s: the loop that builds the output does not append exactly one byte per input byte " \
+                                  "(a conditional append or a `continue`): the text shown is shorter or longer than the file" % fn.loc(loop)
+                        break
+                if problem is None:
+                    r.add(key, fn.loc(n), True, "one byte appended per input byte")
+                    continue
+            elif problem is None:
+                r.undecided.append("%s: cannot tell how many bytes `%s` holds" % (fn.loc(n), vec.get("n")))
+                continue
+            r.add(key, fn.loc(n), False, problem)
+    return r
+
+
+def _shared_surface_format(prog):
+    from . import c13
+    r = c13.rule_format_of_own_surface(prog)
+    r.rule = "R-C01-10"      # each surface's catalogue is read as the variant identified on that surface
+    return r
+
+
 def run(ctx):
     prog = ctx.prog("dfs", "N")
     r1 = c02.rule_entry_fields(prog, only=["start_sector", "file_length"], rule_id="R-C01-1")
     return [r1, rule_body_path(prog), rule_walk_accounting(prog), rule_last_sector(prog),
             rule_degenerate_continue(prog), rule_opus_catalogue_slot(prog), rule_extents_from_sorted(prog),
-            rule_empty_files_do_not_overlap(prog)]
+            rule_empty_files_do_not_overlap(prog), _shared_surface_format(prog), rule_type_length(prog)]
 
 
 SELFTESTS = [
